@@ -440,6 +440,34 @@ pub fn witness_c10steps() -> bool {
             let _ = state.into_outcome();
             let _ = bob.shutdown().await;
         }
+        // ---------------- (e) an allowed request whose FIRST message cannot be processed (the document is not open for sync at the
+        // acceptor): the failure is reported, and the state knows which document the failed session was about
+        for sync_open in [false, true] {
+            let bob = mk_handle(&["b1"], "bob-e");
+            if sync_open {
+                bob.open(namespace, OpenOpts::default()).await.unwrap(); // open, but sync switched off
+            }
+            let (d, b) = tokio::io::duplex(1 << 16);
+            let (br, bw) = tokio::io::split(b);
+            let (_dr, dw) = tokio::io::split(d);
+            let mut dw = FramedWrite::new(dw, SyncCodec);
+            let mut e = Store::memory();
+            let m1 = e.new_replica(secret.clone()).unwrap().sync_initial_message().unwrap();
+            dw.send(Message::Init { namespace, message: m1 }).await.unwrap();
+            dw.get_mut().shutdown().await.unwrap();
+            let mut state = BobState::new(dialer_id);
+            let res = tokio::time::timeout(std::time::Duration::from_secs(10), state.run(bw, br, bob.clone(), |_ns, _peer| std::future::ready(AcceptOutcome::Allow))).await;
+            if !matches!(res, Ok(Err(_))) {
+                eprintln!("c10steps(e): a first message that cannot be processed did not end with a reported error");
+                bad = true;
+            }
+            if state.namespace() != Some(namespace) {
+                eprintln!("c10steps(e): after an allowed request failed, the state does not know the document ({:?})", state.namespace().is_some());
+                bad = true;
+            }
+            let _ = state.into_outcome();
+            let _ = bob.shutdown().await;
+        }
         bad
     });
     bad
